@@ -162,6 +162,17 @@ func (c18) Run(c *fw.Ctx) {
 			c.Count("files_with_empty_first_slot", 1)
 		}
 	}
+	storedMaxRet := l.MaxRet()
+	if c.Index%7 == 5 && !remote {
+		// a file whose stored maxRetention field is not what its last archive implies (written by another tool): the header
+		// that view and view-raw print is the file's
+		if img := readFileOrNil(path); len(img) > 8 {
+			storedMaxRet = l.MaxRet() + int64(1+r.Intn(5))*int64(l.Archs[len(l.Archs)-1].Step)
+			img[4], img[5], img[6], img[7] = byte(storedMaxRet>>24), byte(storedMaxRet>>16), byte(storedMaxRet>>8), byte(storedMaxRet)
+			ioutil.WriteFile(path, img, 0644)
+			c.Count("files_with_an_unusual_max_retention_field", 1)
+		}
+	}
 	_, raw, _, err := rawOfFile(path)
 	if err != nil {
 		panic(err)
@@ -269,6 +280,9 @@ func (c18) Run(c *fw.Ctx) {
 	}
 	out := parseOutput(res.Stdout)
 	wantHdr := headerText(l)
+	if storedMaxRet != l.MaxRet() {
+		wantHdr[0] = strings.Replace(wantHdr[0], "maxRetention:"+durText(l.MaxRet()), "maxRetention:"+durText(storedMaxRet), 1)
+	}
 	if header {
 		c.Count("header_checked", 1)
 		if strings.Join(out.HeaderLines, "\n") != strings.Join(wantHdr, "\n") {
@@ -419,6 +433,48 @@ func (c18) Run(c *fw.Ctx) {
 				c.Violationf("text-out-file-incomplete", fw.J{"scenario": sc}, "the -text-out file does not contain the complete output of the second run")
 				return
 			}
+		}
+	}
+	// a window that ends EXACTLY one maximum retention before the command's clock (to the second): the coarsest archive's
+	// oldest live slot is still reported by a fetch, so view prints it
+	if c.Index%6 == 3 && noiseBase == "" && !c.Violated() {
+		for try := 0; try < 6; try++ {
+			ns := time.Now().Nanosecond()
+			if ns > 250e6 {
+				time.Sleep(time.Duration(1e9-ns) + 5*time.Millisecond)
+			}
+			n0 := time.Now().Unix()
+			u := n0 - l.MaxRet()
+			f := u - int64(l.Archs[len(l.Archs)-1].Step)*2
+			if f < 1 {
+				break
+			}
+			res := runCLI(c, "view", "-src-base", filepath.Dir(path), "-src", "file.wsp", "-archive", "-1", "-header=false", "-from", tsArg(f), "-until", tsArg(u))
+			if res.T0 != n0 || res.T1 != n0 {
+				continue // the second changed: not judged
+			}
+			c.Count("views_ending_exactly_at_the_maximum_retention", 1)
+			if res.Exit != 0 || cliPanicked(res) {
+				c.Violationf("view-failed", fw.J{"scenario": sc, "run": res.brief()}, "view of a window ending at now - maxRetention exited %d", res.Exit)
+				return
+			}
+			tsl, _, err := fetchArchives(path, -1, f, u, n0)
+			if err != nil {
+				break
+			}
+			var want []pointLine
+			for ai := range tsl {
+				if tsl[ai] == nil {
+					continue
+				}
+				for j, v := range tsl[ai].Values() {
+					want = append(want, pointLine{Arch: ai, T: int64(tsl[ai].FromTime()) + int64(j)*int64(tsl[ai].Step()), V: float64(v)})
+				}
+			}
+			if !comparePointLines(c, "view", parseOutput(res.Stdout).Points, want, fw.J{"scenario": sc, "run": res.brief(), "cmd_now": n0, "window": "ends exactly at now - maxRetention"}) {
+				return
+			}
+			break
 		}
 	}
 	// the text output on a full device: nothing of what view / view-raw "print" can arrive, so neither may report success
